@@ -152,9 +152,12 @@ func hashRule(p Params, field, mh string) string {
 	if uint(len(mh)) > p.HashLength {
 		return fmt.Sprintf("%s longer (%d) than maxOperationHashLength %d", field, len(mh), p.HashLength)
 	}
-	code, _, ok := asm.DecodeMultihash(mh)
+	code, digest, ok := asm.DecodeMultihash(mh)
 	if !ok {
 		return field + " is not a well-formed multihash"
+	}
+	if want := map[uint64]int{asm.SHA256: 32, asm.SHA512: 64}[code]; want != 0 && len(digest) != want {
+		return fmt.Sprintf("%s carries a digest of %d bytes, its algorithm produces %d", field, len(digest), want)
 	}
 	for _, c := range p.Hashes {
 		if uint64(c) == code {
@@ -237,6 +240,10 @@ func broken(req []byte, p Params) string {
 		crv, _ := vstr(key, "crv")
 		if !in(p.KeyAlgs, crv) {
 			return fmt.Sprintf("signing key curve %q is not enabled", crv)
+		}
+		// the signature is made (and later verified) with the key: its algorithm is the one that goes with the key's curve
+		if want := map[string]string{"P-256": "ES256", "P-384": "ES384", "P-521": "ES512", "secp256k1": "ES256K", "Ed25519": "EdDSA"}[crv]; want != "" && alg != want {
+			return fmt.Sprintf("the signature algorithm of a %s key is %s, which the header does not name (%q) - the algorithm actually used need not be enabled", crv, want, alg)
 		}
 		nonce, _ := vstr(key, "nonce")
 		if nonce != "" {
@@ -426,7 +433,7 @@ func drawSpec(t *rapid.T) reqSpec {
 // mutation of one field of a valid request (re-signing nothing: intake does not verify signatures).
 func mutations() []string {
 	return []string{"none", "hash-other-alg", "hash-malformed", "hash-too-long", "hash-unknown-code", "alg-disabled", "crv-disabled", "nonce-wrong-size", "patch-disabled", "reveal-mismatch",
-		"alg-case-variant", "crv-case-variant", "short-digest", "reveal-of-other-key", "reveal-of-other-key-signed-own", "reveal-respelled", "patch-unknown-action", "delta-missing", "signed-data-missing", "did-suffix-over-long", "hash-respelled"}
+		"alg-case-variant", "crv-case-variant", "short-digest", "reveal-of-other-key", "reveal-of-other-key-signed-own", "reveal-respelled", "patch-unknown-action", "delta-missing", "signed-data-missing", "did-suffix-over-long", "hash-respelled", "alg-of-another-key-type", "digest-length"}
 }
 
 func mutate(t *rapid.T, s reqSpec, mut string, p *Params) []byte {
@@ -499,6 +506,25 @@ func mutate(t *rapid.T, s reqSpec, mut string, p *Params) []byte {
 			pickHashField(req, sg, c, func(string) string { return asm.B64(asm.FrameMultihash(0x16, asm.Digest(asm.SHA256, []byte("x")))) })
 		case "short-digest":
 			pickHashField(req, sg, c, func(string) string { return asm.B64(asm.FrameMultihash(s.code, []byte{1, 2, 3})) })
+		case "alg-of-another-key-type":
+			// the header names an enabled algorithm, the key (and with it the signature) is of another one that may
+			// not even be enabled: the algorithm that actually signs is the key's
+			if sg != nil {
+				other := rapid.SampledFrom(without([]string{"ES256", "ES384", "ES512", "ES256K", "EdDSA"}, s.kt.Alg())).Draw(t, "otherAlg")
+				if rapid.Bool().Draw(t, "onlyTheNamedAlgorithmEnabled") {
+					p.SigAlgs = []string{other}
+				}
+				resign(req, sg, func(_ map[string]interface{}, hdr map[string]interface{}) { hdr["alg"] = other })
+			}
+		case "digest-length":
+			// well-formed framing around a digest of another length than the algorithm produces (0, 1, 31, 33, 63, 65 bytes)
+			pickHashField(req, sg, c, func(string) string {
+				n := rapid.SampledFrom([]int{0, 1, 31, 33, 63, 65}).Draw(t, "digestLen")
+				if (s.code == asm.SHA256 && n == 32) || (s.code == asm.SHA512 && n == 64) {
+					n++
+				}
+				return asm.B64(asm.FrameMultihash(s.code, make([]byte, n)))
+			})
 		case "alg-disabled":
 			p.SigAlgs = without(p.SigAlgs, s.kt.Alg())
 		case "crv-disabled":
